@@ -29,6 +29,7 @@ const (
 	sigReplayEarly = "C03/replay-accepted-within-60s"      // same, less than 60 s after the first acceptance
 	sigOutside     = "C03/accepted-outside-window"         // accepted although ts-floor(now) is not in (-30, 30]
 	sigRefused     = "C03/fresh-request-refused"           // never-accepted, in-window genuine request refused
+	sigExtremeTS   = "C03/extreme-timestamp-accepted"      // a request whose timestamp is astronomically far from the server clock accepted
 	sigForged      = "C03/unauthenticated-accepted"        // garbage / forged / foreign-key request accepted
 	sigConcDup     = "C03/concurrent-duplicates-accepted"  // k concurrent copies: more than one success
 	sigConcNone    = "C03/fresh-request-refused-concurrent"
@@ -58,6 +59,7 @@ const (
 	fgTruncated         // genuine bytes cut before the fixed-length header is complete
 	fgFlipPrefix        // one bit flipped in the stream prefix (or the header type/timestamp ciphertext when there is none)
 	fgForeignKey        // a request made by a client holding a different key (Req must be a foreign spec)
+	fgRestamp           // made by a key holder: same salt, fixed header re-sealed with an absurd timestamp (tsPatterns[Pos])
 	fgKinds
 )
 
@@ -100,6 +102,15 @@ type plan struct {
 	Steps   []step        `json:"steps"`
 }
 
+// stepsString renders only the steps.
+func (p plan) stepsString() string {
+	s := p.String()
+	if i := strings.LastIndex(s, ";"); i >= 0 {
+		return strings.TrimSpace(s[i+1:])
+	}
+	return s
+}
+
 func (p plan) String() string {
 	var sb strings.Builder
 	fmt.Fprintf(&sb, "class=%v seed=%d dribble=%v managed=%v serverStart=%v;", p.Class, p.Seed, p.Dribble, p.Managed, p.Start)
@@ -131,7 +142,11 @@ func (p plan) String() string {
 		case stPresent:
 			fmt.Fprintf(&sb, " present(r%d)", s.Req)
 		case stForge:
-			fmt.Fprintf(&sb, " forge(r%d,kind=%d,pos=%d)", s.Req, s.Forge, s.Pos)
+			if s.Forge == fgRestamp {
+				fmt.Fprintf(&sb, " extreme-ts(r%d,%s)", s.Req, tsPatterns[s.Pos%len(tsPatterns)].name)
+			} else {
+				fmt.Fprintf(&sb, " forge(r%d,kind=%d,pos=%d)", s.Req, s.Forge, s.Pos)
+			}
 		case stConc:
 			fmt.Fprintf(&sb, " concurrent(r%d x%d)", s.Req, s.K)
 		case stOpen:
@@ -181,7 +196,7 @@ func (p plan) target(i int) conn.Addr { return sstcp.Target(i, p.Seed+uint64(i)*
 // execute builds the requests on the client clock (bubble A) and presents them on the server
 // clock (bubble B) as the plan says, judging every presentation against the reference model.
 // It never fails the test itself.
-func execute(t *testing.T, p plan) (out outcome) {
+func executeUnbounded(t *testing.T, p plan) (out outcome) {
 	out.labels = map[string]bool{}
 	w, err := sstcp.NewWorld(p.Class, p.Seed, p.Seed^0xA5A5)
 	if err != nil {
@@ -240,8 +255,22 @@ func execute(t *testing.T, p plan) (out outcome) {
 		eihLen = sstcp.IdentityLen
 	}
 
-	forge := func(s step) []byte {
+	restamped := map[[2]int][]byte{} // (request, pattern) -> bytes, so that a later step presents the very same bytes
+	restampedOn := map[int]bool{}
+	forge := func(s step, now time.Duration) []byte {
 		g := wire[s.Req]
+		if s.Forge == fgRestamp {
+			k := [2]int{s.Req, s.Pos % len(tsPatterns)}
+			if b, ok := restamped[k]; ok {
+				return b
+			}
+			b, err := restamp(w, g, tsPatterns[k[1]].ts(uint64(bubbleEpochUnix+sec(now))))
+			if err != nil {
+				b = nil
+			}
+			restamped[k] = b
+			return b
+		}
 		b := append([]byte(nil), g...)
 		pos := s.Pos
 		if pos < 0 {
@@ -384,16 +413,34 @@ func execute(t *testing.T, p plan) (out outcome) {
 			if out.violation != "" {
 				return
 			}
+			progressStep.Store(int64(si))
+			progressWhat.Store(plan{Steps: []step{s}}.stepsString())
 			switch s.Kind {
 			case stAdv:
 				time.Sleep(s.D)
 				now += s.D
 			case stForge:
-				ok, _ := present(forge(s), p.target(s.Req))
+				fb := forge(s, now)
+				if fb == nil {
+					violate(sigHarness, "step %d: could not build the forged request", si)
+					continue
+				}
+				ok, _ := present(fb, p.target(s.Req))
 				forgedOn[s.Req] = true
 				out.labels[fmt.Sprintf("forge-%d", s.Forge)] = true
 				keyParts = append(keyParts, fmt.Sprintf("f%d", s.Forge))
-				if ok {
+				if s.Forge == fgRestamp {
+					pat := tsPatterns[s.Pos%len(tsPatterns)]
+					out.labels[pat.class] = true
+					restampedOn[s.Req] = true
+					if _, was := accepted[s.Req]; was {
+						out.labels["extreme-timestamp-on-an-accepted-salt"] = true
+					}
+					if ok {
+						violate(sigExtremeTS, "step %d: r%d's salt with the fixed header re-sealed for timestamp %s (= %d, server unix time %d) accepted at server instant %v",
+							si, s.Req, pat.name, pat.ts(uint64(bubbleEpochUnix+sec(now))), bubbleEpochUnix+sec(now), now)
+					}
+				} else if ok {
 					violate(sigForged, "step %d: forged kind %d derived from r%d accepted at server instant %v", si, s.Forge, s.Req, now)
 				}
 			case stCred:
@@ -530,6 +577,9 @@ func execute(t *testing.T, p plan) (out outcome) {
 					if forgedOn[r] {
 						out.labels["fresh-after-forged-same-salt"] = true
 					}
+					if restampedOn[r] {
+						out.labels["fresh-after-extreme-timestamp-same-salt"] = true
+					}
 					if refusedInvalid[r] {
 						out.labels["valid-after-refused-as-outside-window"] = true
 					}
@@ -639,7 +689,7 @@ type rawStep struct{ Kind, A, B, C, D int }
 
 var rawGen = rapid.Custom(func(t *rapid.T) rawStep {
 	return rawStep{
-		Kind: rapid.IntRange(0, 21).Draw(t, "kind"),
+		Kind: rapid.IntRange(0, 22).Draw(t, "kind"),
 		A:    rapid.IntRange(0, 63).Draw(t, "a"),
 		B:    rapid.IntRange(0, 63).Draw(t, "b"),
 		C:    rapid.IntRange(0, 63).Draw(t, "c"),
@@ -808,6 +858,19 @@ func drawPlan(rt *rapid.T) plan {
 			p.Steps = append(p.Steps, step{Kind: stDeliver, Conn: pending[i].conn})
 			note(pending[i].req)
 			pending = append(pending[:i:i], pending[i+1:]...)
+		case kind == 22:
+			// extreme-timestamp probe: a request the server has not seen; its salt presented with absurd timestamps (made by
+			// a key holder); the genuine request; the same absurd bytes again; the genuine request again
+			r := newReq(false, s.A, s.B)
+			n := 1 + s.C%3
+			for i := 0; i < n; i++ {
+				p.Steps = append(p.Steps, step{Kind: stForge, Req: r, Forge: fgRestamp, Pos: s.D + i*17})
+			}
+			p.Steps = append(p.Steps, step{Kind: stPresent, Req: r})
+			note(r)
+			p.Steps = append(p.Steps, step{Kind: stForge, Req: r, Forge: fgRestamp, Pos: s.D}, step{Kind: stForge, Req: r, Forge: fgRestamp, Pos: s.D + 1 + s.C/3},
+				step{Kind: stPresent, Req: r})
+			note(r)
 		case kind == 20: // long uptime: a very large advance
 			d := at(uptimeAlphabet, s.A) + at(uptimeFine, s.B)
 			p.Steps = append(p.Steps, step{Kind: stAdv, D: d})
@@ -923,7 +986,9 @@ var recHist = ev.New("C03", "replay-history",
 	"rapid: configuration class x history of up to 14 steps over {advance (boundary alphabet 0,1ns,1s-1ns,1s,29..31s,59..61s +-1ns/1ms, or aimed at "+
 		"validity start/end and accept+60s/61s of an existing request), present a new request built by the real client at client instant "+
 		"server-now+skew (skew in {-31,-30,-29,-1,0,1,29,30,31}s + sub-second phase), present an existing request again, present unauthenticated "+
-		"traffic derived from a request (garbage, bit flips in fixed header/EIH/prefix, genuine salt + random, truncated, foreign key), present k in 2..8 "+
+		"traffic derived from a request (garbage, bit flips in fixed header/EIH/prefix, genuine salt + random, truncated, foreign key, and - made by a key holder - "+
+		"the request's salt with a fixed header re-sealed for an absurd timestamp: server clock +-k*2^55 s +-{0,1,29,30,31} s, +-2^31..2^63 s, raw 0/1/2^63/2^64-1/..., "+
+		"server clock + 2^64 - small), present k in 2..8 "+
 		"copies concurrently, very large advances (2^31/2^32/2^33 ms, 2^22 s, 1 day, 400 days, +-{0,1ns,1ms,500ms,30s,60s}) and an uptime probe = early accept / clock to "+
 		"first-accept + W + fine - lead / victim accepted / +gap in {1ms,1s,11s,29s,30s,59s,60s-500ms,60s-1ms,60s-1ns} / other accept / victim again, open a connection whose bytes arrive later (HandleStream already blocked in its first read while the clock moves; "+
 		"idle probe = open / optional acceptance of the same request elsewhere / +d in {0,1s-1ns,1s,29..31s,59..61s,100s} / optional other accept / bytes arrive; "+
@@ -936,6 +1001,7 @@ var recHist = ev.New("C03", "replay-history",
 		"presented-outside-window", "skew-at-limit", "skew-just-outside", "concurrent", "valid-after-refused-as-outside-window",
 		"idle>=1s-before-bytes-arrive", "idle>=31s-before-bytes-arrive", "idle-connection-opened-before-earlier-acceptance",
 		"idle-connection-opened-before-acceptance-delivered-after-retention",
+		clsMul55, clsBits, clsPow, "fresh-after-extreme-timestamp-same-salt", "extreme-timestamp-on-an-accepted-salt",
 		"uptime>=1day", "uptime>=2^32ms", "replay-in-window-after-long-uptime", "replay-in-window-across-2^32ms-of-pool-uptime",
 		"managed-server", "cred-reload", "cred-add", "cred-delete", "cred-update", "replay-in-window-after-credential-change")
 
@@ -969,7 +1035,8 @@ func TestReplayHistory(t *testing.T) {
 // ---- bounded-exhaustive histories over a boundary alphabet ---------------------------------------
 
 var recExh = ev.New("C03", "replay-exhaustive",
-	"bounded-exhaustive: every history of length <= depth over {+1ns, +1s-1ns, +30s, +60s, new(+30s), new(0), new(-29s), new(-30s), new(+31s), again(first), again(last), open-new(0) = open an idle connection for a new request, deliver = its bytes arrive on the oldest idle connection} "+
+	"bounded-exhaustive: every history of length <= depth over {+1ns, +1s-1ns, +30s, +60s, new(+30s), new(0), new(-29s), new(-30s), new(+31s), again(first), again(last), open-new(0) = open an idle connection for a new request, deliver = its bytes arrive on the oldest idle connection, "+
+		"extreme-ts(last) = the last request's salt re-sealed with an absurd timestamp (pattern varies)} "+
 		"from server instant 40s, for the classes k16/k32 x {no EIH, 1 iPSK}; same model as replay-history. Non-trivial as in replay-history")
 
 func TestReplayExhaustive(t *testing.T) {
@@ -984,7 +1051,7 @@ func TestReplayExhaustive(t *testing.T) {
 	if v, err := strconv.Atoi(os.Getenv("VERIF_SHARDS")); err == nil && v > 0 {
 		shards = v
 	}
-	const nsym = 13
+	const nsym = 14
 	classes := []sstcp.Class{{KeyLen: 16, Segmented: true}, {KeyLen: 32, NIPSK: 1, Fallback: true}, {KeyLen: 16, NIPSK: 1, Prefix: 1}, {KeyLen: 32, Segmented: true, Fallback: true}}
 	var total, known int64
 	seq := make([]int, depth)
@@ -1031,6 +1098,10 @@ func TestReplayExhaustive(t *testing.T) {
 						p.Reqs = append(p.Reqs, reqSpec{At: now})
 						p.Steps = append(p.Steps, step{Kind: stOpen, Req: len(p.Reqs) - 1, Conn: nconn})
 						nconn++
+					case 13: // the last request's salt with an absurd timestamp (pattern varies with the history index)
+						if len(p.Reqs) > 0 {
+							p.Steps = append(p.Steps, step{Kind: stForge, Req: len(p.Reqs) - 1, Forge: fgRestamp, Pos: idx + len(p.Steps)})
+						}
 					case 12:
 						if ndelivered < nconn {
 							p.Steps = append(p.Steps, step{Kind: stDeliver, Conn: ndelivered})
@@ -1132,6 +1203,34 @@ func regressionPlans() []plan {
 				Steps: []step{{Kind: stOpen, Req: 0, Conn: 0}, {Kind: stAdv, D: d}, {Kind: stDeliver, Conn: 0}, {Kind: stPresent, Req: 1},
 					{Kind: stPresent, Req: 0}, {Kind: stAdv, D: 59 * time.Second}, {Kind: stPresent, Req: 0}}})
 		}
+	}
+	// a refused replay leaves the server functional: accept r; r again (refused); fresh r2 (accepted); r2 again (refused); fresh r3
+	for ci, c := range []sstcp.Class{{KeyLen: 16, Segmented: true}, {KeyLen: 32, Fallback: true}, {KeyLen: 16, NIPSK: 1}, {KeyLen: 32, NIPSK: 1, Segmented: true, Fallback: true},
+		{KeyLen: 32, NIPSK: 2, Prefix: 1}} {
+		for _, managed := range []bool{false, true} {
+			if managed && c.NIPSK == 0 {
+				continue
+			}
+			t0 := baseServerAdv
+			ps = append(ps, plan{Class: c, Seed: uint64(700 + ci), Start: t0, Managed: managed,
+				Reqs: []reqSpec{{At: t0}, {At: t0 + time.Second}, {At: t0 - time.Second}, {At: t0 + 29*time.Second}},
+				Steps: []step{{Kind: stPresent, Req: 0}, {Kind: stPresent, Req: 0}, {Kind: stPresent, Req: 1}, {Kind: stPresent, Req: 1}, {Kind: stPresent, Req: 2},
+					{Kind: stConc, Req: 2, K: 3}, {Kind: stPresent, Req: 3}, {Kind: stForge, Req: 3, Forge: fgFlipFixed, Pos: 3}, {Kind: stPresent, Req: 0}}})
+		}
+	}
+	// timestamps far outside any plausible range: every pattern before the genuine request (which must still be accepted), every
+	// pattern again afterwards (same bytes), and the genuine request again (refused)
+	for ci, c := range []sstcp.Class{{KeyLen: 16, Segmented: true}, {KeyLen: 32, NIPSK: 1, Fallback: true}, {KeyLen: 32, NIPSK: 2, Prefix: 1}} {
+		pl := plan{Class: c, Seed: uint64(600 + ci), Start: baseServerAdv + 700*time.Millisecond, Reqs: []reqSpec{{At: baseServerAdv + 700*time.Millisecond}, {At: baseServerAdv + 29*time.Second}}}
+		for i := range tsPatterns {
+			pl.Steps = append(pl.Steps, step{Kind: stForge, Req: 0, Forge: fgRestamp, Pos: i}, step{Kind: stForge, Req: 1, Forge: fgRestamp, Pos: i})
+		}
+		pl.Steps = append(pl.Steps, step{Kind: stPresent, Req: 0}, step{Kind: stPresent, Req: 1}, step{Kind: stAdv, D: time.Second})
+		for i := range tsPatterns {
+			pl.Steps = append(pl.Steps, step{Kind: stForge, Req: 0, Forge: fgRestamp, Pos: i})
+		}
+		pl.Steps = append(pl.Steps, step{Kind: stPresent, Req: 0}, step{Kind: stPresent, Req: 1})
+		ps = append(ps, pl)
 	}
 	// long uptime: the pool's first acceptance is 2^32 ms (and 2^31, 2^33 ms, 400 days) before the victim's salt is due
 	for ci, c := range []sstcp.Class{{KeyLen: 16, Segmented: true}, {KeyLen: 32, NIPSK: 1, Fallback: true}} {
